@@ -294,11 +294,11 @@ def gen_recv_item(rng, x, name, depth=0):
         else:
             items = gen_items(rng, v["fields"], depth + 1)
             if items is not None:
-                return "%s(%s)" % (name, ", ".join(items))
+                return "%s(%s(%s))" % (name, v["name"], ", ".join(items))
     return None
 
 
-MISTAKE_KINDS = ["unknown", "duplicate", "literal", "drop_required", "bad_value", "enum_arity", "wrong_form"]
+MISTAKE_KINDS = ["unknown", "duplicate", "literal", "drop_required", "bad_value", "enum_arity", "wrong_form", "malformed"]
 
 
 def inject_mistakes(rng, src, k):
@@ -343,6 +343,17 @@ def inject_mistakes(rng, src, k):
                     depth -= src[j] in ")]"
                     j += 1
                 src = src[:q + 1] + " " + rng.choice(["999999", "b'x'", "1.5", '"not a number"', "a + b", "-1", "'cc'".replace("cc", "q")]) + src[j:]
+        elif kind == "malformed":
+            # a list body that is not comma-separated meta syntax, at any depth
+            r = rng.random()
+            if r < 0.4:
+                src = src[:p + 1] + rng.choice(["+ ", "= ", "a b, ", "? "]) + src[p + 1:]
+            else:
+                q = src.find(", ", p)
+                if q >= 0:
+                    src = src[:q] + " " + src[q + 2:]
+                else:
+                    src = src[:p + 1] + "x y" + src[p + 1:]
         elif kind == "enum_arity":
             src = src[:p + 1] + ")" + src[p + 1:] if rng.random() < 0.3 else src
         else:
